@@ -325,6 +325,10 @@ func runC09(w *World, r *Report) {
 		}
 	}
 
+	shareRule(w, r, "C09.state-handlers-locked", "every way into the run's state — the plain and the stream state handlers, ProcessState, GetState — calls the user function under the state mutex: handlers run on the run-loop goroutine while sibling nodes are inside the state", 5, "C11", "C11.lock-region")
+	r.Rule("C09.copy-cells-consistent", "the cells and the close counter shared by the copies of one stream are written under sync.Once / atomically and read behind them (shared with C08.copy-cell): copies are closed and read by different goroutines", 6)
+	copyCellChecks(w, r, "C09.copy-cells-consistent")
+
 	r.Rule("C09.reslice-append", "no append onto a re-slice (x[:k]) of a parameter slice or of a slice held in a field of a shared object, except the owner's delete-in-place stored back into the same field", 1)
 	ruleResliceAppend(w, r, "C09.reslice-append", "compose", "schema", "internal", "flow", "callbacks", "components", "utils")
 
